@@ -195,8 +195,10 @@ def cert(ctx, binary, n):
 
 
 def hunt(ctx, binary, n):
+    env = dict(vlib.go_env())
+    env["C01_HUNT_FOCUS"] = ",".join(ctx.cov.get("ops_gen_changed_methods") or [])
     rc, out = vlib.sh([binary, "--extra", "hunt", "--n", str(n), "--seed", str(ctx.seed), "--out", ctx.dir],
-                      timeout=900, env=vlib.go_env())
+                      timeout=900, env=env)
     hp = os.path.join(ctx.dir, "hunt.json")
     if rc == 0 and os.path.exists(hp):
         return json.load(open(hp))
